@@ -509,6 +509,68 @@ pub fn run(c: &Value) -> Value {
             let (l, _) = lex_parse("ascii", &s);
             json!({"s":s,"chars":s.chars().map(|c| c.to_string()).collect::<Vec<_>>(),"kind":kind,"lex":l})
         }
+        // ------------------------------------------------------------ beyond the listed properties (DESIGN §10)
+        "options" => {
+            // M9: NarseseOptions as a state machine over five slots; slot i holds the value i+1 when filled
+            use narsese::api::NarseseOptions;
+            let init = s_of(c, "slots").as_bytes().to_vec();
+            let some = |i: usize| if init[i] == b'1' { Some((i + 1) as u8) } else { None };
+            let mut m: NarseseOptions<u8, u8, u8, u8, u8> = NarseseOptions { budget: some(0), term: some(1), punctuation: some(2), stamp: some(3), truth: some(4) };
+            let slots = |m: &NarseseOptions<u8, u8, u8, u8, u8>| -> String {
+                [m.budget.is_some(), m.term.is_some(), m.punctuation.is_some(), m.stamp.is_some(), m.truth.is_some()].iter().map(|b| if *b { '1' } else { '0' }).collect()
+            };
+            let o8 = |o: Option<u8>| o.map(|v| v as i64).unwrap_or(0);
+            let mut steps = vec![];
+            for op in c["ops"].as_array().expect("ops") {
+                let r: Value = match op.as_str().unwrap() {
+                    "take_budget" => json!([o8(m.take_budget())]),
+                    "take_term" => json!([o8(m.take_term())]),
+                    "take_punctuation" => json!([o8(m.take_punctuation())]),
+                    "take_stamp" => json!([o8(m.take_stamp())]),
+                    "take_truth" => json!([o8(m.take_truth())]),
+                    "take" => { let t = m.take(); json!([o8(t.budget), o8(t.term), o8(t.punctuation), o8(t.stamp), o8(t.truth)]) }
+                    "has_sentence" => json!([if m.has_sentence() { 1 } else { 0 }]),
+                    "has_task" => json!([if m.has_task() { 1 } else { 0 }]),
+                    "take_sentence" => match m.take_sentence() { Some((t, p, st, tr)) => json!([1, t, p, o8(st), o8(tr)]), None => json!([0]) },
+                    "take_task" => match m.take_task() { Some((b, t, p, st, tr)) => json!([1, b, t, p, o8(st), o8(tr)]), None => json!([0]) },
+                    "clone_eq" => json!([if m.clone() == m { 1 } else { 0 }]),
+                    other => json!([-1, other]),
+                };
+                steps.push(json!({"res": r, "slots": slots(&m)}));
+            }
+            json!({"steps": steps})
+        }
+        "parts" => {
+            // stand-alone formatting / parsing of truth, budget, stamp, punctuation (FormatTo / FromParse side doors) and fold of the lexical lists
+            let fmt = s_of(c, "fmt");
+            let f = enum_format(fmt);
+            let truth = truth_of(&c["truth"]).expect("truth");
+            let budget = budget_of(&c["budget"]).expect("budget");
+            let stamp = stamp_of(&c["stamp"]).expect("stamp");
+            let punct = punct_of(s_of(c, "punct")).expect("punct");
+            let ts = f.format_truth(&truth);
+            let bs = f.format_budget(&budget);
+            let ss = f.format_stamp(&stamp);
+            let ps = f.format_punctuation(&punct);
+            let lt: Vec<String> = c["truth"].as_array().unwrap().iter().map(|x| x.as_str().unwrap().to_string()).collect();
+            let lb: Vec<String> = c["budget"].as_array().unwrap().iter().map(|x| x.as_str().unwrap().to_string()).collect();
+            let mut tm = truth.clone();
+            use narsese::api::EvidentValueMut;
+            let set_f = guarded(|| { tm.set_frequency(&0.25); truth_to(&tm) });
+            let mut tm2 = truth.clone();
+            let set_c = guarded(|| { tm2.set_confidence(&0.125); truth_to(&tm2) });
+            json!({
+                "ts": ts, "bs": bs, "ss": ss, "ps": ps,
+                "truth": if ts.is_empty() { json!({"r":"empty"}) } else { res(guarded(|| f.parse::<en::Truth>(&ts)), truth_to) },
+                "budget": res(guarded(|| f.parse::<en::Budget>(&bs)), budget_to),
+                "stamp": res(guarded(|| f.parse::<en::Stamp>(&ss)), stamp_to),
+                "punct": res(guarded(|| f.parse::<en::Punctuation>(&ps)), |p| json!(punct_to(p))),
+                "fold_truth": res(guarded(|| lt.clone().try_fold_into(f).map_err(|e| format!("{e:?}"))), truth_to),
+                "fold_budget": res(guarded(|| lb.clone().try_fold_into(f).map_err(|e| format!("{e:?}"))), budget_to),
+                "set_f": match set_f { Ok(v) => json!({"r":"ok","v":v}), Err(_) => json!({"r":"panic"}) },
+                "set_c": match set_c { Ok(v) => json!({"r":"ok","v":v}), Err(_) => json!({"r":"panic"}) },
+            })
+        }
         "echo" => c.clone(),
         other => json!({"error":format!("unknown op {other}")}),
     }
